@@ -910,3 +910,10 @@ M("C15.traceparent_ids_swapped_in_display", ["C15"], "traceparent/src/lib.rs",
             fmt::Display::fmt(&span_id, f)?;""",
   """        if let Some(span_id) = self.span_id {
             fmt::Display::fmt(&self.trace_flags, f)?;""", "C15.R4:traceparent-writer")
+
+# ---- metrics accounting ----------------------------------------------------------------------------------------------------
+M("C09.counter_increment_by_stores", ["C09"], "batcher/src/internal_metrics.rs",
+  "        self.0.fetch_add(by, Ordering::Relaxed);", "        self.0.store(by, Ordering::Relaxed);", "C09.R6:counters")
+M("C09.queue_length_reports_capacity_hint", ["C09"], "batcher/src/lib.rs",
+  "        let queue_length = { self.shared.state.lock().unwrap().next_batch.channel.len() };",
+  "        let queue_length = { self.shared.state.lock().unwrap().next_batch.watchers.on_take.len() };", "C09.R6:queue_length")
